@@ -322,6 +322,66 @@ Proof.
     + right. eauto.
 Qed.
 
+Lemma in_firstn {A} (l : list A) : forall n x, In x (firstn n l) -> In x l.
+Proof. induction l as [|y tl IH]; intros [|n] x H; cbn in *; auto; try tauto. destruct H; eauto. Qed.
+
+(** ---- block bodies of live block entries are always stored ---- *)
+Definition BlkInv (w : wal) (r : rlog) : Prop :=
+  forall e, In e (ents r) -> e_type e = 0 -> w_blocks w (e_data e) = true.
+
+Lemma write_blocks_mono w items w' h : write_raft_entry w items = Some w' -> w_blocks w h = true -> w_blocks w' h = true.
+Proof.
+  destruct items as [|it0 tl]; [discriminate|]. unfold write_raft_entry. intros H Hb. injection H as <-.
+  exact (fold_write_blocks (it0 :: tl) (mk_wal (del_range (w_ent w) (e_index (fst it0)) (last_index w)) (w_last w) (w_inv w) (w_blocks w) (w_cc w) (w_hs w) (w_snap w) (w_id w)) h (or_introl Hb)).
+Qed.
+Lemma write_blocks_present w items w' it : write_raft_entry w items = Some w' -> In it items ->
+  e_type (fst it) = 0 -> w_blocks w' (e_data (fst it)) = true.
+Proof.
+  destruct items as [|it0 tl]; [discriminate|]. unfold write_raft_entry. intros H Hin Ht. injection H as <-.
+  exact (fold_write_blocks (it0 :: tl) (mk_wal (del_range (w_ent w) (e_index (fst it0)) (last_index w)) (w_last w) (w_inv w) (w_blocks w) (w_cc w) (w_hs w) (w_snap w) (w_id w)) _ (or_intror (ex_intro _ it (conj Hin (conj Ht eq_refl))))).
+Qed.
+
+Lemma step_blkinv w r o w' : BlkInv w r -> wstep w o = Some w' -> BlkInv w' (spec_step r o).
+Proof.
+  intros HB Hs. destruct o; cbn in Hs; cbn [spec_step].
+  - destruct items as [|it0 tl]; [discriminate|]. unfold spec_write. cbn [ents].
+    intros e Hin Ht. apply in_app_or in Hin. destruct Hin as [Hin|Hin].
+    + eapply write_blocks_mono; eauto. apply HB; auto. eapply in_firstn; eauto.
+    + apply in_map_iff in Hin. destruct Hin as (it & <- & Hin). eapply write_blocks_present; eauto.
+  - inversion Hs; subst. exact HB.
+  - inversion Hs; subst. exact HB.
+  - inversion Hs; subst. exact HB.
+  - inversion Hs; subst. intros e [].
+  - inversion Hs; subst. intros e [].
+Qed.
+
+Lemma run_blkinv ops : forall w r w', BlkInv w r -> wrun w ops = Some w' -> BlkInv w' (spec_run r ops).
+Proof.
+  induction ops as [|o tl IH]; intros w r w' HB Hr; cbn in *.
+  - now inversion Hr; subst.
+  - destruct (wstep w o) as [w1|] eqn:E; [|discriminate]. eapply IH; eauto. eapply step_blkinv; eauto.
+Qed.
+
+(** After any well-formed history whose entries have valid types, ReadAll with a snapshot at
+    index s (base <= s <= last, snapshot term not above the terms of the entries after s) hands
+    the consensus library exactly the acknowledged log after s — it cannot fail on a missing
+    block body. *)
+Theorem read_all_after_history ops w hs s sterm :
+  history_wf (mk_rlog 0 []) ops -> wrun wal_empty ops = Some w ->
+  let r := spec_run (mk_rlog 0 []) ops in
+  w_hs w = Some hs -> base r <= s -> s <= base r + N.of_nat (length (ents r)) ->
+  (forall e, In e (skipn (N.to_nat (s - base r)) (ents r)) -> e_type e <= 2 /\ sterm <= e_term e) ->
+  read_all w (Some (s, sterm)) = ROk (w_id w, hs, map to_raft (skipn (N.to_nat (s - base r)) (ents r))).
+Proof.
+  intros Hwf Hr r Hhs Hlo Hhi Hall.
+  pose proof (run_refines ops _ _ _ inv_empty Hwf Hr) as HI. fold r in HI.
+  assert (HB : BlkInv w r). { apply (run_blkinv ops wal_empty (mk_rlog 0 []) w); auto. intros e []. }
+  apply read_all_returns_log; auto.
+  intros e Hin. destruct (Hall e Hin) as [Ht Hterm]. split; auto. split; auto.
+  intros H0. apply HB; auto. clear - Hin. revert Hin. generalize (N.to_nat (s - base r)). intros n.
+  revert n. induction (ents r) as [|x l IH]; intros [|n] Hin; cbn in *; auto. right. eapply IH; eauto.
+Qed.
+
 (** ---- durable map only: reads are functions of the stored key/value pairs ---- *)
 Definition wal_equiv (a b : wal) : Prop :=
   (forall i, w_ent a i = w_ent b i) /\ w_last a = w_last b /\ (forall h, w_inv a h = w_inv b h) /\
